@@ -46,6 +46,8 @@ def pools(tier):
     P["two-unit"] = (tu, tu, ("default", "all-equal"), [(False, False), (True, False)])
     sc = [g for g in U.scrg_universe("quick" if tier == "quick" else "thorough")]
     P["SCRG"] = (sc, sc, ("default",), [(True, True), (True, False)])
+    sp = U.spiro_changes()
+    P["spiro-stereo-changes"] = (sp, sp + [g.copy().relabel({a: 20 - a for a in g.atoms}) for g in sp], ("default",), [(True, True), (True, False)])
     sy = [g for _, g in U.symmetric()]
     P["symmetric"] = (sy, sy, ("default", "all-equal"), [(False, False), (True, False)])
     return P
